@@ -25,6 +25,7 @@ var c16Guards = []c16Guard{
 	{"proposalTotalReactor", "consensus/reactor.go", "ConsensusReactor", "Receive", "ps.SetHasProposal(msg.Proposal)", []string{"msg.Proposal == nil", "msg.Proposal.BlockPartsHeader.Total <= 0", "msg.Proposal.BlockPartsHeader.Total > maxParts"}},
 	{"blockComponentsNil", "consensus/state.go", "ConsensusState", "addProposalBlockPart", "cs.ProposalBlock.Recover != cs.recover", []string{"cs.ProposalBlock.Header == nil", "cs.ProposalBlock.Data == nil", "cs.ProposalBlock.LastCommit == nil"}},
 	{"faultEvidenceEmptyCommitState", "consensus/state.go", "ConsensusState", "checkFaultValEvidence", "lastCommit.FirstPrecommit().Round", []string{"lastCommit == nil", "lastCommit.FirstPrecommit() == nil"}},
+	{"lastCommitNilFirstHeight", "consensus/state.go", "ConsensusState", "addVote", "cs.LastCommit.AddVote(vote)", []string{"cs.LastCommit == nil"}},
 	{"faultEvidenceEmptyCommitValidation", "consensus/validation.go", "", "VerifyFaultValEvidence", "lastCommit.FirstPrecommit().Round", []string{"lastCommit == nil", "lastCommit.FirstPrecommit() == nil"}},
 }
 
